@@ -230,6 +230,10 @@ class Endpoint(Node):
         auth_info = self.client_authentication(req, http_info, endpoint=self, **kwargs)
         LOGGER.debug(f"parse_request:auth_info:{auth_info}")
 
+        # "authenticated" is this endpoint's own marker, never something a request can state about itself
+        if "authenticated" in req:
+            del req["authenticated"]
+
         _client_id = auth_info.get("client_id", "")
         if _client_id:
             req["client_id"] = _client_id
